@@ -449,8 +449,16 @@ def InlineEqual(obj:Logic):
 def InlineVerilogCommnent(obj:Logic):
     return '// {}\n'.format(obj.comment)
     
+def getClockPortName(obj:Logic):
+    # Name of the implicit clock port of the module of obj.
+    # Reg modules are shared by all the instances with the same structureName(),
+    # whatever their clock domain, so their clock port has a fixed name
+    if (isinstance(obj, Reg)):
+        return 'clk'
+    return getObjectClockDriver(obj).name
+
 def BodyReg(obj:Logic):
-    clkname = getObjectClockDriver(obj).name
+    clkname = getClockPortName(obj)
     str = "reg "+getWidthInfo(obj.q) + " rq = {};\n".format(obj.reset_value)
     str += "always @(posedge {})\n".format(clkname)
     close = ""
@@ -728,7 +736,7 @@ class VerilogGenerator:
             reg = " reg "
         
         if (self.anyClockableDescendant(obj)):
-            clkname = getObjectClockDriver(obj).name
+            clkname = getClockPortName(obj)
             str += "input {}".format(clkname)
             link = ",\n\t"
         
@@ -860,7 +868,7 @@ class VerilogGenerator:
             else:
                 wirename = getWireName(parent, drv.wire)
                 
-            str += link + ".{}({})".format(clkname, wirename)
+            str += link + ".{}({})".format(getClockPortName(child), wirename)
             link = ","
         
 
